@@ -14,6 +14,7 @@ CONSTANTS
   MaxRejects = 2
   Policies = {"ALL", "LEADER", "NONE"}
   UseCheckpoint = TRUE
+  MaxPause = 0
   Batch = 2
   IgnoreTaints = TRUE
 CHECK_DEADLOCK FALSE
